@@ -11,10 +11,26 @@ from facts import VERIF, REPO
 
 def _load():
     p = os.path.join(VERIF, "selftest", "variants.json")
-    if not os.path.exists(p):
-        return []
-    with open(p) as fh:
-        return json.load(fh)["variants"]
+    out = []
+    if os.path.exists(p):
+        with open(p) as fh:
+            out = json.load(fh)["variants"]
+    # seeded changes written by independent sub-agents: every check recorded as catching one must keep doing so
+    sd = os.path.join(VERIF, "seeded")
+    if os.path.isdir(sd):
+        for sid in sorted(os.listdir(sd)):
+            mp = os.path.join(sd, sid, "meta.json")
+            if not os.path.exists(mp):
+                continue
+            try:
+                meta = json.load(open(mp))
+            except ValueError:
+                continue
+            if not meta.get("confirmed"):
+                continue
+            out.append({"id": "seed-" + sid, "patch": os.path.join("seeded", sid, "patch.diff"),
+                        "must_fire": list(meta.get("checks_reporting_a_violation", [])), "expect": ""})
+    return out
 
 
 def _copy_repo(dst):
